@@ -28,7 +28,7 @@ theorem lemma_methods (script : List Reg) : ∀ (i : Nat) (R : List Route), spec
   | cons g gs ih =>
     intro i R h r hr
     simp only [specRoutesFrom] at h
-    cases hp : parsePattern (g.groups.foldr (· ++ ·) g.path) with
+    cases hp : parsePattern (regText g) with
     | none => simp [hp] at h
     | some p =>
       cases hrs : specRoutesFrom (i + 1) gs with
